@@ -140,12 +140,17 @@ fn pass_2_internal(segment: &Segment, common_context: &CommonContext) -> Result<
                 }
             }
             Item::Undef(alias) => {
-                if let None = common_context.defs.borrow_mut().remove(alias) {
+                if let None = common_context
+                    .defs
+                    .borrow_mut()
+                    .remove(&alias.to_lowercase())
+                {
                     bail!("Identifier {} isn't defined, {}", alias, line);
                 }
             }
             Item::Set(name, expr) => {
                 let value = expr.run(common_context)?;
+                let name = &name.to_lowercase();
                 if common_context.exist(name) {
                     let mut sets = common_context.sets.borrow_mut();
                     if let Some(_) = sets.get(name) {
